@@ -10,6 +10,7 @@ usage: tools/selftest_silent.py [PROP ...] [--max-rename N]
 """
 import ast, glob, io, os, sys, contextlib, collections, random
 
+os.environ["VERIF_PARSE_CACHE"] = "1"
 VERIF = os.path.dirname(os.path.dirname(os.path.abspath(__file__)))
 sys.path.insert(0, VERIF)
 from sa.main import run_property  # noqa
